@@ -2329,7 +2329,11 @@ type Decimal256Encoder<'a> = DecimalEncoder<'a, 32, Decimal256Array>;
 /// avoiding runtime branching on run-end width.
 struct RunEncodedEncoder<'a, R: RunEndIndexType> {
     ends_slice: &'a [<R as ArrowPrimitiveType>::Native],
+    // Physical index of the run that contains the first logical row of the (sliced) array
     base: usize,
+    // Logical offset of the (sliced) array: run ends are absolute, rows are relative to it
+    offset: usize,
+    // Number of physical runs from `base` on
     len: usize,
     values: FieldEncoder<'a>,
     // Cached run index used for sequential scans of rows [0..n)
@@ -2345,13 +2349,18 @@ type RunEncodedEncoder64<'a> = RunEncodedEncoder<'a, Int64Type>;
 impl<'a, R: RunEndIndexType> RunEncodedEncoder<'a, R> {
     fn new(arr: &'a RunArray<R>, values: FieldEncoder<'a>) -> Self {
         let ends = arr.run_ends();
-        let base = ends.get_start_physical_index();
         let slice = ends.values();
-        let len = ends.len();
+        let (base, len) = if ends.is_empty() {
+            (0, 0)
+        } else {
+            let base = ends.get_start_physical_index();
+            (base, slice.len() - base)
+        };
         let cur_end = if len == 0 { 0 } else { slice[base].as_usize() };
         Self {
             ends_slice: slice,
             base,
+            offset: ends.offset(),
             len,
             values,
             cur_run: 0,
@@ -2363,6 +2372,8 @@ impl<'a, R: RunEndIndexType> RunEncodedEncoder<'a, R> {
     /// Uses the REE invariant: run ends are strictly increasing, positive, and 1-based.
     #[inline(always)]
     fn advance_to_row(&mut self, idx: usize) -> Result<(), AvroError> {
+        // Run ends count from the start of the unsliced array
+        let idx = idx + self.offset;
         if idx < self.cur_end {
             return Ok(());
         }
@@ -2386,7 +2397,7 @@ impl<'a, R: RunEndIndexType> RunEncodedEncoder<'a, R> {
         self.advance_to_row(idx)?;
         // For REE values, the value for any logical row within a run is at
         // the physical index of that run.
-        self.values.encode(out, self.cur_run)
+        self.values.encode(out, self.base + self.cur_run)
     }
 }
 
